@@ -1,22 +1,25 @@
 #!/bin/bash
-# selftest.sh [Cxx ...]  For every mutants/<Cxx>/*.patch: apply it to /repo, check that the
-# repository's pinned tests still pass, require the property's quick check to report a
-# VIOLATION, and revert. /repo must be clean when this starts; it is left clean.
+# selftest.sh [Cxx ...]  For every mutants/<Cxx>/*.patch: apply it to a scratch worktree of /repo's
+# HEAD (never to /repo itself), check that the repository's pinned tests still pass there, require
+# the property's quick check (run against that copy through VERIF_REPO) to report a VIOLATION.
 cd "$(dirname "$0")" || exit 2
 export GOFLAGS=-mod=mod GOPROXY=off GOSUMDB=off GOTOOLCHAIN=local
-if [ -n "$(git -C /repo status --porcelain)" ]; then echo "/repo not clean"; exit 2; fi
-props="$@"; [ -z "$props" ] && props=$(ls mutants)
+mkdir -p /tmp/scratch
+WT=/tmp/scratch/selftest-wt-$$
+OUT=/tmp/scratch/selftest-out-$$
+git -C /repo worktree add -q --detach $WT HEAD || exit 2
+trap 'git -C /repo worktree remove --force $WT 2>/dev/null; rm -rf $OUT' EXIT
+props="$@"; [ -z "$props" ] && props=$(ls mutants | grep -v equivalent)
 rc=0
 for p in $props; do
   for m in mutants/$p/*.patch; do
     [ -f "$m" ] || continue
-    if ! git -C /repo apply "$PWD/$m"; then echo "SELFTEST $p $(basename $m): PATCH-DOES-NOT-APPLY"; rc=1; continue; fi
-    if (cd /repo && go build ./... 2>/dev/null) && python3 tools/baseline.py /repo >/tmp/selftest.base 2>&1; then base=pass; else base=FAIL; fi
-    out=$(VERIF_ROOT=/tmp/selftest.verif ./run.sh $p quick 2>&1); code=$?
-    git -C /repo checkout -- . ; git -C /repo clean -fdq
+    if ! git -C $WT apply "$PWD/$m"; then echo "SELFTEST $p $(basename $m): PATCH-DOES-NOT-APPLY"; rc=1; continue; fi
+    if (cd $WT && go build ./... 2>/dev/null) && python3 tools/baseline.py $WT >/dev/null 2>&1; then base=pass; else base=FAIL; fi
+    out=$(VERIF_REPO=$WT VERIF_ROOT=$OUT ./run.sh $p quick 2>&1); code=$?
+    git -C $WT checkout -q -- . ; git -C $WT clean -fdq
     if [ $code -eq 1 ] && echo "$out" | grep -q "^VIOLATION property=$p "; then res=CAUGHT; else res="MISSED(exit=$code)"; rc=1; fi
-    echo "SELFTEST $p $(basename $m): baseline=$base check=$res $(echo "$out" | grep -m1 '  key=' )"
+    echo "SELFTEST $p $(basename $m): baseline=$base check=$res $(echo "$out" | grep -m1 '  key=' | cut -c1-200)"
   done
 done
-rm -rf /tmp/selftest.verif /tmp/selftest.base
 exit $rc
